@@ -357,6 +357,7 @@ type replayCase struct {
 	DstLen  int    `json:"dst_len"`
 	DstCap  int    `json:"dst_cap"`
 	Dict    []byte `json:"dict"`
+	DstNil  bool   `json:"dst_nil"`
 	Depth   uint32 `json:"depth"`
 	Origin  string `json:"origin"`
 	Budget  int    `json:"search_ms"`
@@ -414,6 +415,33 @@ func replayObligation(e *Engine, o *Obligation, scratch string) map[string]inter
 		if rc.DstLen > 4096 {
 			rc.DstLen, rc.DstCap = 0, 0
 		}
+	}
+	if o.Proc == "asm.decodeBlock" {
+		// the assembly model has the argument words; loaded bytes are unconstrained there, so only
+		// the lengths (and a nil destination) are taken from it and the harness searches the contents
+		get := func(n string) int64 {
+			if v, ok := m.intConst("arg$" + n + "!1"); ok && v.IsInt64() && v.Int64() >= 0 && v.Int64() <= maxReplayAlloc {
+				return v.Int64()
+			}
+			return -1
+		}
+		if sl := get("src_len"); sl >= 0 {
+			rc.Src = make([]byte, sl)
+			haveModel = true
+		}
+		if dl := get("dst_len"); dl >= 0 {
+			rc.DstLen, rc.DstCap = int(dl), int(dl)
+			if dc := get("dst_cap"); dc >= dl {
+				rc.DstCap = int(dc)
+			}
+		}
+		if db, ok := m.intConst("arg$dst_base!1"); ok && db.Sign() == 0 {
+			rc.DstNil = true
+		}
+		if kl := get("dict_len"); kl > 0 {
+			rc.Dict = make([]byte, kl)
+		}
+		rc.Origin = "solver-model (argument words of the assembly function; contents searched)"
 	}
 	if !haveModel && rc.Src == nil && rc.Origin == "solver-model" {
 		rc.Origin = "no-model (search only)"
